@@ -438,7 +438,8 @@ file_info_decode(void *coder_ptr, const lzma_allocator *allocator,
 		return_if_error(lzma_index_decoder_init(
 				&coder->index_decoder, allocator,
 				&coder->this_index,
-				coder->memlimit - memused));
+				coder->memlimit == UINT64_MAX ? UINT64_MAX
+					: coder->memlimit - memused));
 
 		coder->index_remaining = coder->footer_flags.backward_size;
 		coder->sequence = SEQ_INDEX_DECODE;
@@ -723,6 +724,13 @@ file_info_decoder_memconfig(void *coder_ptr, uint64_t *memusage,
 	// and even with an empty .xz file we will end up with a lzma_index
 	// that takes some memory.
 	*memusage = combined_index_memusage + this_index_memusage;
+
+	// The Index decoder reports UINT64_MAX if the number of Records
+	// is so big that the memory usage cannot be calculated. Don't let
+	// the sum wrap around to a small value in that case.
+	if (*memusage < combined_index_memusage)
+		*memusage = UINT64_MAX;
+
 	if (*memusage == 0)
 		*memusage = lzma_index_memusage(1, 0);
 
@@ -737,8 +745,11 @@ file_info_decoder_memconfig(void *coder_ptr, uint64_t *memusage,
 		// its new memory usage limit.
 		if (coder->this_index == NULL
 				&& coder->sequence == SEQ_INDEX_DECODE) {
-			const uint64_t idec_new_memlimit = new_memlimit
-					- combined_index_memusage;
+			// UINT64_MAX means that there is no limit.
+			const uint64_t idec_new_memlimit
+					= new_memlimit == UINT64_MAX
+					? UINT64_MAX : new_memlimit
+						- combined_index_memusage;
 
 			assert(this_index_memusage > 0);
 			assert(idec_new_memlimit > 0);
@@ -750,8 +761,11 @@ file_info_decoder_memconfig(void *coder_ptr, uint64_t *memusage,
 					coder->index_decoder.coder,
 					&dummy1, &dummy2, idec_new_memlimit)
 					!= LZMA_OK) {
-				assert(0);
-				return LZMA_PROG_ERROR;
+				// This is possible only if the sum was
+				// saturated to UINT64_MAX above: then
+				// no limit is big enough.
+				assert(*memusage == UINT64_MAX);
+				return LZMA_MEMLIMIT_ERROR;
 			}
 		}
 
